@@ -113,6 +113,17 @@ def run_unit(u):
                 parsers.append(("GLR", GLRParser(g), True))
             except Exception as e:
                 bump(st["build_errors"], type(e).__name__)
+            # SLR tables: FOLLOW-based reductions (the layout sub-parser's table is built first)
+            try:
+                parsers.append(("LR-SLR", Parser(g, build_tree=True, tables=parglare.SLR), False))
+            except (SRConflicts, RRConflicts):
+                pass
+            except Exception as e:
+                bump(st["build_errors"], type(e).__name__)
+            try:
+                parsers.append(("GLR-SLR", GLRParser(g, tables=parglare.SLR), True))
+            except Exception as e:
+                bump(st["build_errors"], type(e).__name__)
             for pname, p, is_glr in parsers:
                 # model skip table vs implementation (ws parameter only)
                 if mode is None and pname == "LR":
@@ -178,6 +189,17 @@ def run_unit(u):
                 continue
             try:
                 pairs.append((GLRParser(g0), GLRParser(g1), True))
+            except Exception:
+                pass
+            try:
+                pairs.append((Parser(g0, build_tree=True, tables=parglare.SLR),
+                              Parser(g1, build_tree=True, tables=parglare.SLR), False))
+            except (SRConflicts, RRConflicts):
+                pass
+            except Exception as e:
+                bump(st["build_errors"], type(e).__name__)
+            try:
+                pairs.append((GLRParser(g0, tables=parglare.SLR), GLRParser(g1, tables=parglare.SLR), True))
             except Exception:
                 pass
             for p0, p1, is_glr in pairs:
